@@ -112,9 +112,10 @@ const (
 	kindMulti             // ssh.NewSignerWithAlgorithms with an explicit order
 	kindAlgoOnly          // implements AlgorithmSigner but not MultiAlgorithmSigner
 	kindSignerOnly        // implements Signer only
+	kindFailing           // like kindDefault, but every signing operation fails (agent refused, token removed)
 )
 
-var kindNames = []string{"default", "multi", "algo-only", "signer-only"}
+var kindNames = []string{"default", "multi", "algo-only", "signer-only", "failing"}
 
 // algoOnly hides Algorithms().
 type algoOnly struct{ s ssh.AlgorithmSigner }
@@ -135,6 +136,24 @@ func (a signerOnly) Sign(r io.Reader, d []byte) (*ssh.Signature, error) {
 	return a.s.Sign(r, d)
 }
 
+// failingSigner offers its key like the default signer but cannot sign.
+type failingSigner struct {
+	s  ssh.MultiAlgorithmSigner
+	sp *signerSpec
+}
+
+func (a failingSigner) PublicKey() ssh.PublicKey { return a.s.PublicKey() }
+func (a failingSigner) Algorithms() []string     { return a.s.Algorithms() }
+func (a failingSigner) Sign(r io.Reader, d []byte) (*ssh.Signature, error) {
+	return a.SignWithAlgorithm(r, d, "")
+}
+func (a failingSigner) SignWithAlgorithm(r io.Reader, d []byte, algo string) (*ssh.Signature, error) {
+	if a.sp.onSignError != nil {
+		a.sp.onSignError()
+	}
+	return nil, errAppCallback
+}
+
 // signerSpec is one signer handed to the client together with the monitor's
 // model of it.
 type signerSpec struct {
@@ -146,6 +165,8 @@ type signerSpec struct {
 	signer ssh.Signer
 	blob   []byte
 	model  cauth.SignerModel
+
+	onSignError func() // kindFailing: set per dialogue to log the event
 }
 
 func (s *signerSpec) String() string {
@@ -198,6 +219,9 @@ func buildSigner(k *poolKey, kind int, order []string, cert, badCA bool) *signer
 	case kindSignerOnly:
 		inner = signerOnly{k.def}
 		sp.model = cauth.SignerModel{Algos: []string{k.format}, Ordered: true}
+	case kindFailing:
+		inner = failingSigner{k.def.(ssh.MultiAlgorithmSigner), sp}
+		sp.model = cauth.SignerModel{Algos: fam, Ordered: true}
 	}
 	sp.model.KeyFormat = k.format
 	sp.signer = inner
@@ -214,9 +238,12 @@ func buildSigner(k *poolKey, kind int, order []string, cert, badCA bool) *signer
 }
 
 // randomSigner draws a signer kind for key k.
-func randomSigner(r *rand.Rand, k *poolKey, certProb float64) *signerSpec {
+func randomSigner(r *rand.Rand, k *poolKey, certProb float64, allowFailing bool) *signerSpec {
 	kind := kindDefault
 	var order []string
+	if allowFailing && r.IntN(16) == 0 {
+		return buildSigner(k, kindFailing, nil, r.Float64() < certProb, false)
+	}
 	switch r.IntN(10) {
 	case 0, 1, 2:
 		kind = kindMulti
